@@ -19,13 +19,15 @@ static int h_incomplete;
 static double h_now(void) { struct timespec t; clock_gettime(CLOCK_MONOTONIC, &t); return t.tv_sec + t.tv_nsec / 1e9; }
 static int h_expired(void) { if (h_deadline > 0 && h_now() > h_deadline) { h_incomplete = 1; return 1; } return 0; }
 
+static void (*h_crash_extra)(char *buf, size_t n);	// optional: appends e.g. the current schedule
 static void h_crash(int sig) {
-	char b[2300]; int n = snprintf(b, sizeof b, "\nCRASHCASE %s (signal %d)\n", h_case, sig);
+	char x[1500] = ""; if (h_crash_extra) h_crash_extra(x, sizeof x);
+	char b[4000]; int n = snprintf(b, sizeof b, "\nCRASHCASE %s %s (signal %d)\n", h_case, x, sig);
 	if (write(2, b, n)) {}
 	signal(sig, SIG_DFL); raise(sig);
 }
 // ASan calls this (weak hook) right before it reports.
-void __asan_on_error(void) { char b[2300]; int n = snprintf(b, sizeof b, "\nCRASHCASE %s (asan)\n", h_case); if (write(2, b, n)) {} }
+void __asan_on_error(void) { char x[1500] = ""; if (h_crash_extra) h_crash_extra(x, sizeof x); char b[4000]; int n = snprintf(b, sizeof b, "\nCRASHCASE %s %s (asan)\n", h_case, x); if (write(2, b, n)) {} }
 
 static void h_init(void) {
 	signal(SIGABRT, h_crash); signal(SIGSEGV, h_crash); signal(SIGBUS, h_crash); signal(SIGFPE, h_crash); signal(SIGILL, h_crash);
